@@ -70,17 +70,18 @@ type Options struct {
 }
 
 type Engine struct {
-	Ctx       context.Context
-	Opt       Options
-	Cfg       *headers.Config
-	Insts     []*Inst
-	Trace     Trace
-	Findings  []Finding
-	Stats     map[string]int
-	Probes    []Hash // never-accepted hashes to look up
-	Crash     CrashStats
-	opIdx     int
-	lastClass string
+	everMarked map[Hash]bool // every hash MarkHeaderInvalid was ever called with in this history
+	Ctx        context.Context
+	Opt        Options
+	Cfg        *headers.Config
+	Insts      []*Inst
+	Trace      Trace
+	Findings   []Finding
+	Stats      map[string]int
+	Probes     []Hash // never-accepted hashes to look up
+	Crash      CrashStats
+	opIdx      int
+	lastClass  string
 }
 
 type CrashStats struct {
@@ -417,6 +418,14 @@ func (e *Engine) submitOne(in *Inst, hd *wire.BlockHeader) string {
 			if exp["invalid"] && !wasHeld {
 				e.fail("C17", "later-submission-refused-as-marked-invalid", "marked-header-verdict/got="+class,
 					fmt.Sprintf("header %s is marked invalid but was answered %q", h, class))
+			}
+			if class == "invalid" && !m.Invalid[h] {
+				was := "never-marked"
+				if e.everMarked[h] {
+					was = "unmarked-since"
+				}
+				e.fail("C17", "unmarking-makes-the-header-acceptable-again", "refused-as-marked-although-not-marked/"+was,
+					fmt.Sprintf("header %s was refused as marked invalid (%v) but it is not marked now (%s); admissible: %s", h, err, was, setStr(exp)))
 			}
 		}
 	}
